@@ -267,6 +267,8 @@ class Walker:
         body_owner = shell
         if _COVER is not None:
             _COVER.add(fn_path)
+        if not top:
+            self.__dict__.setdefault('inlined_fns', set()).add(fn_path)
         frame = Frame(fn_path, shell)
         # async fn: parameters live in the shell, the code in {closure#0}
         params = shell.get('params', [])
@@ -945,6 +947,16 @@ class Walker:
                 return mk_ite(is_variant(recv, okv), payload(recv, okv), dflt)
             if name == 'or':
                 return mk_ite(is_variant(recv, okv), recv, args[1])
+            if name in ('is_some_and', 'is_ok_and') and len(args) == 2 and cl[1]:
+                cv, _ = self.apply_closure(cl[1], [payload(recv, okv)], And(pc, is_variant(recv, okv)))
+                return mk_bool(And(is_variant(recv, okv), as_formula(cv)))
+            if name == 'is_none_or' and len(args) == 2 and cl[1]:
+                cv, _ = self.apply_closure(cl[1], [payload(recv, okv)], And(pc, is_variant(recv, okv)))
+                return mk_bool(Or(Not(is_variant(recv, okv)), as_formula(cv)))
+            if name == 'map_or_else' and len(args) == 3 and cl[1] and cl[2]:
+                dv, _ = self.apply_closure(cl[1], [], And(pc, Not(is_variant(recv, okv))))
+                cv, _ = self.apply_closure(cl[2], [payload(recv, okv)], And(pc, is_variant(recv, okv)))
+                return mk_ite(is_variant(recv, okv), cv, dv)
             if name == 'map_or' and len(args) == 3 and cl[2]:
                 cv, _ = self.apply_closure(cl[2], [payload(recv, okv)], And(pc, is_variant(recv, okv)))
                 return mk_ite(is_variant(recv, okv), cv, args[1])
@@ -1073,6 +1085,10 @@ class Walker:
             if name == 'all':
                 return mk_bool(Not(Atom(('any', recv, Not(body)))))
             return ('find', recv, body)
+        if name == 'flatten' and len(args) == 1 and ('option::Iter' in (recv_ty or '') or 'option::IntoIter' in (recv_ty or '')
+                                                     or (recv_ty or '').startswith('std::option::Option<')):
+            # opt.iter().flatten() walks the collection inside the option (nothing when it is None)
+            return ('some_of', recv)
         if name in ('take', 'skip', 'step_by') and len(args) == 2 and 'Iterator' in (fn.get('trait') or ''):
             return recv
         if name == 'next' and len(args) == 1:
